@@ -2,6 +2,7 @@ package main
 
 import (
 	"fmt"
+	"os"
 	"go/token"
 	"go/types"
 	"sort"
@@ -57,6 +58,7 @@ func checkC03(c *Check) {
 	c.Rule("S3 no-outside-access: tracker map fields, user fields and unexported tracker methods are referenced only inside the entry-point cones (constructor stores excepted)")
 	c.Rule("S4 map-discipline: each raw access to GenericSyncMap.m has <that map>.mtx in its must-lockset")
 	c.Rule("S5 lock-order: held->acquired graph acyclic and without self-edge")
+	c.Rule("S7 login-event-read-only: the correlator never writes through RemoteUserLogin.Source (the event object is shared with the sshd worker that produced it and that may still be encoding it; the tracker mutex does not cover that worker)")
 	c.Rule("S6 no-blocking-under-lock: no send/receive/blocking select/sleep/Wait with a non-empty lockset")
 	c.Trust("Go memory model: sync.Mutex Unlock happens-before the next Lock", "go/ssa v0.29.0 construction, go/types", "go-libaudit invokes stream callbacks outside its own lock (reassembler.go callback())", "dependency code called under a lock (auditevent encoder, zap, fmt) does not call back into the repository (checked in the thorough tier through the call graph)")
 	c.Assume("no reflection/unsafe/linkname in repository packages (scanned on every run)", "panics are not recovered inside the cone (a panic under a deferred unlock releases the lock)")
@@ -202,12 +204,19 @@ func checkC03(c *Check) {
 	c.Floor("S4 raw map accesses in tracker cones", 10, nraw)
 
 	// S5 lock order
+	if os.Getenv("AMDEBUG") == "locks" {
+		for _, e := range w.Events {
+			if e.Kind == "acquire" || e.Kind == "reacquire" || e.Kind == "release" || e.Kind == "undecided" {
+				fmt.Println("LOCKEV", e.EP, e.Kind, e.What, e.Pos, e.Held, strings.Join(e.Stack, ">"))
+			}
+		}
+	}
 	edges := map[string]map[string]string{}
 	for _, e := range w.Events {
 		switch e.Kind {
 		case "reacquire":
 			o := Obl{Rule: "S5 lock-order", Construct: fmt.Sprintf("%s: self-edge %s in %s", e.EP, e.What, e.Fn), Pos: e.Pos, Verdict: Violated,
-				Fact: "non-reentrant mutex " + e.What + " acquired while already held: the delivery deadlocks on itself", Entry: strings.Join(e.Stack, " > ")}
+				Fact: "non-reentrant mutex " + e.What + " acquired while already held" + map[bool]string{true: " (on a path reaching this call, e.g. the first visit of a callback run under the lock)", false: ""}[e.Detail == "may"] + ": the delivery deadlocks on itself", Entry: strings.Join(e.Stack, " > ")}
 			c.Obls = append(c.Obls, o)
 		case "acquire":
 			for _, h := range e.Held {
@@ -254,6 +263,8 @@ func checkC03(c *Check) {
 
 	// S3 no outside access
 	checkNoOutsideAccess(c, named, w)
+	// S7 the event handed over with a login stays the producer's
+	loginEventReadOnly(c)
 
 	// informational: who calls the entry points
 	callers := map[string][]string{}
@@ -526,4 +537,87 @@ func isValueMethodOfErrorOrStringer(f *ssa.Function) bool {
 		}
 	})
 	return leaf
+}
+
+
+// loginEventReadOnly (S7): a RemoteUserLogin carries a pointer to the
+// UserLogin event built by the sshd worker. That worker is outside the
+// tracker's mutex; the correlator side (packages processors/auditd/...)
+// may read the event but must not write it: no store, map update or
+// mutating builder call whose target is reached through the Source field.
+func loginEventReadOnly(c *Check) {
+	p := c.P
+	viaSource := func(v ssa.Value) bool {
+		cur := v
+		for i := 0; i < 12 && cur != nil; i++ {
+			switch x := cur.(type) {
+			case *ssa.FieldAddr:
+				if nt := namedOf(x.X.Type()); nt != nil && nt.Obj().Name() == "RemoteUserLogin" && fieldName(x.X.Type(), x.Field) == "Source" {
+					return true
+				}
+				cur = x.X
+			case *ssa.Field:
+				if nt := namedOf(x.X.Type()); nt != nil && nt.Obj().Name() == "RemoteUserLogin" && fieldName(x.X.Type(), x.Field) == "Source" {
+					return true
+				}
+				cur = x.X
+			case *ssa.IndexAddr:
+				cur = x.X
+			case *ssa.UnOp:
+				cur = x.X
+			case *ssa.ChangeType:
+				cur = x.X
+			default:
+				return false
+			}
+		}
+		return false
+	}
+	nread, nfn := 0, 0
+	for _, fn := range p.AllRepoFuncs() {
+		if !strings.HasPrefix(FuncPkgPath(fn), ModPath+"/processors/auditd") || fn.Blocks == nil {
+			continue
+		}
+		nfn++
+		allInstrs(fn, func(in ssa.Instruction) {
+			switch x := in.(type) {
+			case *ssa.Store:
+				if _, isAlloc := x.Addr.(*ssa.Alloc); isAlloc {
+					return
+				}
+				// writing the Source field itself (of a local copy) is not a write through it
+				if fa, ok := x.Addr.(*ssa.FieldAddr); ok {
+					if viaSource(fa.X) {
+						c.Bad("S7 login-event-read-only", "store in "+fn.Name(), p.InstrPos(in), "a field of the event handed over with the login (RemoteUserLogin.Source) is written by the correlator: the sshd worker that built the event may still be encoding it, and the tracker mutex does not cover that worker")
+					}
+					return
+				}
+				if viaSource(x.Addr) {
+					c.Bad("S7 login-event-read-only", "store in "+fn.Name(), p.InstrPos(in), "the event handed over with the login (RemoteUserLogin.Source) is written by the correlator")
+				}
+			case *ssa.MapUpdate:
+				if viaSource(x.Map) {
+					c.Bad("S7 login-event-read-only", "map update in "+fn.Name(), p.InstrPos(in), "a map of the event handed over with the login (RemoteUserLogin.Source) is updated by the correlator while the sshd worker that built the event may still be encoding it: concurrent map write and iteration")
+				}
+			case ssa.CallInstruction:
+				cc := x.Common()
+				sc := staticCallee(cc)
+				if sc == nil || sc.Signature.Recv() == nil || len(cc.Args) == 0 || !viaSource(cc.Args[0]) {
+					if sc != nil && len(cc.Args) > 0 && viaSource(cc.Args[0]) {
+						nread++
+					}
+					return
+				}
+				if strings.HasPrefix(sc.Name(), "With") || strings.HasPrefix(sc.Name(), "Set") || strings.HasPrefix(sc.Name(), "Add") {
+					c.Bad("S7 login-event-read-only", "call of "+sc.Name()+" in "+fn.Name(), p.InstrPos(in), "a mutating method is called on the event handed over with the login (RemoteUserLogin.Source)")
+				}
+			case *ssa.UnOp:
+				if x.Op == token.MUL && viaSource(x.X) {
+					nread++
+				}
+			}
+		})
+	}
+	c.OK("S7 login-event-read-only", "correlator packages processors/auditd/...", "-", fmt.Sprintf("%d functions scanned, %d read(s) through RemoteUserLogin.Source, no write", nfn, nread))
+	c.Floor("reads through RemoteUserLogin.Source in the correlator (the rule has something to look at)", 1, nread)
 }
